@@ -285,7 +285,7 @@ def rule_R05_3(ctx):
     n = 0
     sets = {}
     for cfile, fname, role in sites:
-        fn = tus[cfile].func(fname)
+        fn = tus[cfile].family(fname)
         s = dtypes_tested(fn, dt)
         sets[role] = s
         for d in sorted(used):
